@@ -24,7 +24,7 @@ Size(T, abi) == RBits(abi) \div CBits(T)
 IsCxM(T) == T \in {"c32", "c64"}
 
 \* declared width in bits of the mask parameter of SIMDVector<T,ABI>::mask_load / mask_store
-\* (uint16_t for the 16-lane AVX-512 vectors, uint8_t everywhere else, including the generic/fixed_size implementation)
+\* (uint16_t for the 16-lane AVX-512 vectors, uint8_t for the other intrinsic ABIs; the generic/fixed_size implementation picks the type from its lane count)
 DeclBits(T, abi) == IF abi = "avx512" /\ T \in {"f32", "i32", "c32"} THEN 16 ELSE 8
 
 Bit(m, j) == (m \div (2 ^ j)) % 2 = 1
